@@ -278,7 +278,7 @@ def run(ctx, rep):
            "conn.modules[...].pickle.loads(bytes(pickle.dumps(localobj)))" if okd else "deliver() is `%s`" % s, fd.loc)
 
     # ------------------------------------------------------------------ R03.8
-    K.share(ctx, rep, "c04", lambda o: o.rule in ("R04.1", "R04.2", "R04.3", "R04.4"), "R03.8", floor=20)
+    K.share(ctx, rep, "c04", lambda o: o.rule in ("R04.1", "R04.2", "R04.3", "R04.4", "R04.6"), "R03.8", floor=20)
     _weak_cache_model(ctx, rep)
 
 
